@@ -37,8 +37,33 @@ ASSUME \\A n \\in 2..64 : PrintT(<<"LENS", n, Dens(ScalarPlan(n)) \\cup Dens(Sse
     r = subprocess.run(["tlc", "-config", "PlanLens.cfg", "PlanLens.tla"], cwd=d, stdout=subprocess.PIPE, stderr=subprocess.STDOUT, text=True)
     shutil.rmtree(d, ignore_errors=True)
     return [l for l in r.stdout.splitlines() if l.startswith('<<"LENS"')]
+def lens_lines_avx(nmax):
+    """node lengths of the AVX planner model's plans (f32/f64, with/without AVX2) of n = 2..nmax"""
+    import subprocess, tempfile, shutil
+    spec = os.path.join(os.path.dirname(out))
+    d = tempfile.mkdtemp()
+    for f in os.listdir(spec):
+        if f.endswith(".tla"): shutil.copy(os.path.join(spec, f), d)
+    open(os.path.join(d, "PlanLensAvx.tla"), "w").write("""---- MODULE PlanLensAvx ----
+EXTENDS PlannerAvx, TLC
+Dens(t) == {NodeLen(t, i) : i \\in DOMAIN t} \\cup {2 * NodeLen(t, i) : i \\in {j \\in DOMAIN t : t[j].k = "BluesteinsBase"}}
+All(n) == UNION {Dens(AvxPlan(e, a, n)) : e \\in {"f32", "f64"}, a \\in BOOLEAN}
+ASSUME \\A n \\in 2..%d : PrintT(<<"LENS", n, All(n)>>)
+====
+""" % nmax)
+    open(os.path.join(d, "PlanLensAvx.cfg"), "w").write("")
+    r = subprocess.run(["java", "-Xss1g", "-cp", "/opt/veriftools/tla/tla2tools.jar:/opt/veriftools/tla/CommunityModules-deps.jar", "tlc2.TLC",
+                        "-config", "PlanLensAvx.cfg", "PlanLensAvx.tla"], cwd=d, stdout=subprocess.PIPE, stderr=subprocess.STDOUT, text=True)
+    shutil.rmtree(d, ignore_errors=True)
+    ls = [l for l in r.stdout.splitlines() if l.startswith('<<"LENS"')]
+    if not ls: print(r.stdout[-2000:])
+    return ls
+AVX = len(sys.argv) > 1 and sys.argv[1] == "avx"
+if AVX:
+    out = out + "_avx"
+    os.makedirs(out, exist_ok=True)
 made = []
-for ln in (open(sys.argv[1]) if len(sys.argv) > 1 else lens_lines()):
+for ln in (lens_lines_avx(int(sys.argv[2]) if len(sys.argv) > 2 else 200) if AVX else open(sys.argv[1]) if len(sys.argv) > 1 else lens_lines()):
     m = re.match(r'<<"LENS", (\d+), \{(.*)\}>>', ln.strip())
     if not m: continue
     n = int(m.group(1)); lens = [int(x) for x in m.group(2).split(",") if x.strip()]
@@ -57,7 +82,7 @@ for ln in (open(sys.argv[1]) if len(sys.argv) > 1 else lens_lines()):
     c = (g + gi) * pow(2, p - 2, p) % p
     s = (-(g - gi)) * pow(2 * I, p - 2, p) % p
     assert (c * c + s * s) % p == 1
-    open(os.path.join(out, "MC_ExecPlan_%d.cfg" % n), "w").write(
+    open(os.path.join(out, ("MC_ExecPlanAvx_%d.cfg" if AVX else "MC_ExecPlan_%d.cfg") % n), "w").write(
         "SPECIFICATION Spec\nCONSTANTS\n  N = %d\n  P = %d\n  BigN = %d\n  GRe = %d\n  GIm = %d\n  G <- GPair\nINVARIANT Inv\nCHECK_DEADLOCK FALSE\n" % (n, p, N, c, s))
     made.append(n)
 print("generated", len(made), "configs:", made)
